@@ -95,14 +95,17 @@ class Lc:
         out = {'key': str(key), 'kind': str(sub.kind), 'V': {}, 'J': {}, 'I': {}, 'is_source': {}}
         for n, v in mna.Vdict.items():
             out['V'][str(n)] = val(v)
+        # internal nodes created by the expansion of opamps are numbered per Circuit instance: canonicalise by order
+        anon = sorted([n for n in out['V'] if n.startswith('_nodeanon')], key=lambda q: int(''.join(ch for ch in q if ch.isdigit()) or 0))
+        for k_, n_ in enumerate(anon):
+            out['V']['_anon%d' % k_] = out['V'].pop(n_)
         for name in mna.unknown_branch_currents:
             out['J'][name] = val(mna.Idict[name])
-            base = name[:-1] if name not in cct.elements and name.endswith('X') else name
-            out['is_source'][name] = bool(cct.elements[base].is_source) if name in cct.elements else False
+            out['is_source'][name] = bool(sub.elements[name].is_source) if name in sub.elements else False
         for name, i in mna.Idict.items():
             if name not in mna.unknown_branch_currents:
                 out['I'][str(name)] = val(i)
-                out['is_source'][str(name)] = bool(cct.elements[name].is_source)
+                out['is_source'][str(name)] = bool(sub.elements[name].is_source) if name in sub.elements else False
         # top level API must agree with the sub-netlist for single-kind circuits (spot check on one node)
         out['matrix'] = (mna._A, mna._Z, [str(x) for x in sub.node_list[1:]], list(mna.unknown_branch_currents), val)
         return out
@@ -184,6 +187,16 @@ def run(chk, replay=None):
                 chk.coverage['correspondence']['diagnostics'].append('lcapy raised %s on a circuit the model solves: %s' % (type(e).__name__, case['lcapy'])) \
                     if len(chk.coverage['correspondence']['diagnostics']) < 8 else None
             return
+        # internal nodes created by Lcapy's expansion of opamps (`_nodeanonN`) are matched, in order, with the
+        # model's `_nodeanon_<name>` nodes
+        anon_l = sorted([n for n in got['V'] if n.startswith('_anon')], key=lambda q: int(q[5:]))
+        anon_m = ['_nodeanon_' + l.split()[0] for l in case['lines'] if ' opamp ' in l and len(l.split()) >= 9 and l.split()[8].strip('{}') not in ('0',)]
+        if len(anon_l) == len(anon_m):
+            got = dict(got)
+            got['V'] = dict(got['V'])
+            for a_, b_ in zip(anon_l, anon_m):
+                got['V'][b_] = got['V'].pop(a_)
+        anon_map = dict(zip(anon_l, anon_m)) if len(anon_l) == len(anon_m) else {}
         chk.count('lcapy-kind', got['kind'] if not got['kind'].replace('.', '').replace('/', '').isdigit() else 'ac')
         chk.case((tuple(case['lines']), an), model is not None)
         chk.sample({'analysis': an, 'netlist': case['lcapy'], 'subs': jcase['subs']})
@@ -242,7 +255,7 @@ def run(chk, replay=None):
                 chk.count('solver-error', '%s:%s' % (sm, type(e).__name__))
                 continue
             chk.count('solver', sm)
-            if got2['V'] != got['V'] or got2['J'] != got['J']:
+            if {anon_map.get(k_, k_): v_ for k_, v_ in got2['V'].items()} != got['V'] or got2['J'] != got['J']:
                 n_cex += 1
                 chk.counterexample({'kind': 'solver-dependence', 'solver': sm},
                                    {'input': {'case': jcase, 'spoint': fstr(spoint) if spoint is not None else None, 'solver': sm},
